@@ -172,3 +172,35 @@ Contract(K + "_correlation", props={"C16"},
 Contract(K + "correlation", props={"C16"},
          cases=[Case(f"D={D}", lambda e, D=D: (_states(e, D)[:2], {}, {"no_div": "fields with non-zero norm"})) for D in DIMS],
          spec=lambda u_pred, u_ref: SM.correlation(u_pred, u_ref))
+
+
+# mean over a leading batch axis of any metric (here: the real MSE / nRMSE, by their contracts)
+def _mean_metric_cases():
+    import exponax.metrics as _MX
+    real = {n: getattr(_MX, n) for n in ("MSE", "nRMSE")}
+    out = []
+    for D in (1, 2):
+        for name in ("MSE", "nRMSE"):
+            for B in (1, 3, "B"):
+                def build(e, D=D, name=name, B=B):
+                    from symjnp import values as _v
+                    N, C = sym.integer(e, "N", lo=1), sym.integer(e, "C", lo=1)
+                    nb = sym.integer(e, "B", lo=1) if B == "B" else B
+                    U, Rf = sym.array(e, "U", (nb, C) + (N,) * D), sym.array(e, "R", (nb, C) + (N,) * D)
+                    return (real[name], U, Rf), {"domain_extent": sym.pos_real(e, "L")}, {"no_div": NOTE, "metric": name}
+                out.append(Case(f"D={D},metric={name},batch={B}", build))
+    return out
+
+
+def _mean_metric_spec(metric_fn, u, r, domain_extent=1.0):
+    from symjnp import values as _v
+    from symjnp.values import SArr
+    name = getattr(metric_fn, "__name__", "")
+    name = name if name in SM.SPATIAL else next(n for n in SM.SPATIAL if n in str(getattr(metric_fn, "__qualname__", metric_fn)))
+    mode, p, o = SM.SPATIAL[name]
+    B = u.shape[0]
+    per = SArr((B,), lambda idx: SM.spatial_norm(u[idx[0]], r[idx[0]], mode, domain_extent, p, o).at_(()), "real")
+    return _v.reduce_("mean", per, 0, False)
+
+
+Contract("exponax.metrics._utils.mean_metric", props={"C16"}, cases=_mean_metric_cases(), spec=_mean_metric_spec)
